@@ -31,13 +31,14 @@ RULE = (
 )
 ASSUMPTIONS = [
     "the generic country is run with CURRENCY_CODE=usd and LONG_TERM_CAPITAL_GAINS=365",
+    "transfers of an instant are credited before the instant's out-transactions are debited, as the pinned tree does (shape same-instant-transfer-then-sale: day-granular exports); chains of transfers inside one instant are unspecified and not generated",
     "KF2 (rp2_jp without -g: default language ja has no templates) and KF3 (rp2_jp refuses -f together with -t) are recorded findings, keyed by country, options and error message",
 ]
 SETTINGS: Dict[str, Dict[str, Any]] = {
-    "quick": {"inputs": 3, "budget_s": 75, "minimums": {"cli_runs": 400, "nontrivial": 300, "inverted_cut_runs": 20, "runs_with_config_method_schedule": 20}, "required_tags": {"tag_country": list(COUNTRIES), "tag_filter": ["none", "from", "to", "from+to"]}},
+    "quick": {"inputs": 4, "budget_s": 90, "minimums": {"cli_runs": 540, "nontrivial": 400, "inverted_cut_runs": 20, "runs_with_config_method_schedule": 28}, "required_tags": {"tag_country": list(COUNTRIES), "tag_filter": ["none", "from", "to", "from+to"]}},
     "thorough": {"inputs": 32, "budget_s": 480, "minimums": {"cli_runs": 4000, "nontrivial": 3200, "inverted_cut_runs": 200, "runs_with_config_method_schedule": 220}, "required_tags": {"tag_country": list(COUNTRIES), "tag_filter": ["none", "from", "to", "from+to"]}},
 }
-SHAPES = ["all-types", "inverted-dates", "multi-asset-sparse", "fully-sold+income-only", "single-asset", "multi-asset", "sparse-years", "mixed-offsets"]
+SHAPES = ["all-types", "inverted-dates", "same-instant-transfer-then-sale", "multi-asset-sparse", "fully-sold+income-only", "single-asset", "multi-asset", "sparse-years", "mixed-offsets"]
 
 
 def matrix() -> List[Tuple[str, Optional[str], Optional[str], str]]:
@@ -74,6 +75,8 @@ def shaped_input(rng: Any, shape: str) -> Dict[str, Dict[str, Any]]:
         first, _ = families.inverted_dates(rng, "AAA", at_new_year=True)
         second, _ = families.inverted_dates(rng, "BBB", at_new_year=rng.random() < 0.5)
         return {"AAA": first, "BBB": second}
+    if shape == "same-instant-transfer-then-sale":
+        return {"AAA": families.same_instant_transfer_then_sale(rng, "AAA"), "BBB": families.same_instant_transfer_then_sale(rng, "BBB")}
     if shape == "mixed-offsets":
         return cli_histories(rng, 2, cli_profile(mixed_tz=True, gap_style=rng.choice(("short", "boundary", "mixed")), tie_prob=0.2, max_events=14, min_events=6))
     if shape == "single-asset":
